@@ -26,7 +26,7 @@ META = {
             "parser/printer around the pass are exercised by the oracle only (C05's obligation).",
     "technique": "Lean 4 proof over hand-written model + differential correspondence with the real pass + behavioural oracle on wazero",
 }
-REQUIRED = ["walk_finds_nested_calls", "mark_iff_reach", "fuel_sufficient", "roots_kept", "kept_call_closed",
+REQUIRED = ["walk_finds_nested_calls", "walk_never_stops", "mark_iff_reach", "fuel_sufficient", "roots_kept", "kept_call_closed",
             "kept_only_reachable", "removed_iff_unreachable", "strip_valid_refs", "strip_keeps_rest",
             "run_congr_closed", "strip_preserves", "strip_preserves_seq", "real_eq_spec",
             "real_drops_elem_only_import", "real_drops_exported_import", "real_panics_on_table_set",
@@ -120,7 +120,9 @@ def classify(item, o):
         refs = o.get("refs") or []
         if refs:
             kinds = {r.split(":")[0] for r in refs}
-            if flags & {"numeric-elem", "numeric-export"} and not flags & {"import-as-elem", "import-as-export", "import-as-start"}:
+            if "call" in kinds:
+                key = "pass:call-target-removed"      # a printed `call $g` whose $g the pass deleted
+            elif flags & {"numeric-elem", "numeric-export"} and not flags & {"import-as-elem", "import-as-export", "import-as-start"}:
                 key = "pass:numeric-funcidx-not-root"
             elif flags & {"import-as-elem", "import-as-export", "import-as-start"}:
                 key = "pass:import-root-dropped"
